@@ -45,6 +45,18 @@ CHECKS = {
          "Exploration with an exhaustive part: for every generated data set, eps (on, between, below and above realised distances), min_samples and both backends the labelling read through serde must satisfy the density-based definition (cores labelled, cores share a label iff density-connected, border points carry a neighbouring core's label, all else noise, labels 0..c-1, num_classes = c), be backend independent on cores and noise, and predict must be a plurality bucket (noise when no neighbour).",
          "Neighbourhoods of the reference use the library's Distance implementations (pinned by C17).",
          "DESIGN.md section 7 C13"),
+ "C05": ("property-based testing (proptest): the fitted node array is read from the serde serialisation, every row is routed by the harness, and each split is compared with a brute-force search over all admissible thresholds; metamorphic power-of-two feature scaling; refit determinism",
+         "Exploration: structure, routing = predict, leaf output = majority / mean of exactly the routed rows, min_samples_leaf and max_depth bounds, greedy optimality of every chosen split and completeness of every leaf (regression always; classification for distinct feature values and min_samples_leaf = 1), exact reproduction with limits off, determinism and invariance under multiplication of the features by 2^j.",
+         "Trusts the brute-force split evaluation in harness/src/props/c05.rs; ties between equally good splits / majority classes are accepted.",
+         "DESIGN.md section 7 C05"),
+ "C06": ("property-based testing (proptest): same-seed refit differential, member trees restored from the forest's JSON and queried individually, aggregation and out-of-bag masks recomputed by the harness",
+         "Exploration: identical serialisation and bitwise identical predictions for two fits with the same seed; forest prediction = plurality / mean of the restored member trees; OOB prediction aggregates exactly the trees whose stored sample mask excludes the row; labels are training labels; every classifier bootstrap sample contains every class; regressor output within the target range; trees.len() = n_trees; predict_oob without samples is an error.",
+         "Trusts serde round trip of single trees (pinned by C19) to query members.",
+         "DESIGN.md section 7 C06"),
+ "C11": ("property-based testing (proptest): sufficient statistics recounted from the raw data and MAP scores recomputed from the model's reported statistics",
+         "Exploration: for the four variants the class list, counts, priors (frequencies or user supplied, summing to one), Gaussian moments, smoothed log-probabilities with the documented denominators and their normalisation are recomputed from the data; predictions on training, recombined and perturbed rows must maximise log prior + sum of log-likelihoods computed from the reported statistics.",
+         "Gaussian predict with a zero per-class variance is outside the domain and only counted.",
+         "DESIGN.md section 7 C11"),
 }
 ALL = ["C%02d" % i for i in range(1, 21)]
 NA_REASON = {}
